@@ -114,7 +114,7 @@ fn case_typed<S: Spec>(sub: &str, id: u64, steps: u64, r: &mut Report) {
             for k in 0..25u64 {
                 let (how, mut g): (String, S::R) = match k % 5 {
                     4 => {
-                        let zeros = *p.pick(&crate::drive::ZERO_BLOCK_COUNTS) * S::SEED_LEN;
+                        let zeros = *p.pick(crate::drive::zero_block_counts()) * S::SEED_LEN;
                         let zeros = if S::NAME == "XorShiftRng" { zeros } else { zeros.min(2 * S::SEED_LEN) };
                         let mut d = vec![0u8; zeros];
                         d.extend(p.bytes(S::SEED_LEN));
@@ -127,7 +127,7 @@ fn case_typed<S: Spec>(sub: &str, id: u64, steps: u64, r: &mut Report) {
                     0 | 1 => { let x = super::c08::special_u64(&mut p, k + (id % 12)); (format!("seed_from_u64({})", hx64(x)), S::R::seed_from_u64(x)) }
                     2 => { let s = if p.chance(1, 4) { vec![0u8; S::SEED_LEN] } else { gen_seed(&mut p, S::SEED_LEN, wb, true).1 }; (format!("from_seed({})", hex(&s)), S::from_seed(&s)) }
                     _ => {
-                        let zeros = if S::NAME == "XorShiftRng" { *p.pick(&crate::drive::ZERO_BLOCK_COUNTS) * 16 } else { p.below(3) as usize * S::SEED_LEN };
+                        let zeros = if S::NAME == "XorShiftRng" { *p.pick(crate::drive::zero_block_counts()) * 16 } else { p.below(3) as usize * S::SEED_LEN };
                         let mut d = vec![0u8; zeros];
                         d.extend(p.bytes(S::SEED_LEN));
                         let mut src = crate::drive::SourceRng::new(d);
